@@ -1088,10 +1088,311 @@ def run_ec(ctx):
     ctx.note("error_codes_seen", {str(k): v for k, v in R.err_codes.items()})
 
 
+
+# =====================================================================================================
+# RSA signatures: independent RFC 8017 verdicts computed from the library's public key
+# =====================================================================================================
+class Rsa(Base):
+    def __init__(self, ctx, R):
+        Base.__init__(self, ctx, R)
+        K = R.K
+        pd = K["CP_RSAPD"]
+        self.pad = {K["CP_RSAPD_PKCS2"]: "pss", K["CP_RSAPD_PKCS1"]: "pkcs1", K["CP_RSAPD_BASIC"]: "basic"}[pd]
+        self.cap = 300
+        self.sig = R.mem(self.cap, 0xAA)
+        self.sl = R.cell(0)
+
+    # ------------------------------------------------------------------ model
+    def mhash(self, msg, pre):
+        return msg if pre else H(msg)
+
+    def encode(self, mh, pre, key):
+        """the encoded message the configured padding defines for digest mh"""
+        k, nb = key["k"], key["nbits"]
+        if self.pad == "pss":
+            return cprt.pss_encode(mh, nb - 1)
+        if self.pad == "pkcs1":
+            return cprt.pkcs1_sig_encode(mh, k, digestinfo=not pre)
+        return bytes(k - 1 - len(mh)) + b"\xff" + mh
+
+    def em_valid(self, em_int, mh, pre, key):
+        k, nb = key["k"], key["nbits"]
+        if len(mh) != cprt.HL:
+            return False
+        if self.pad == "pss":
+            emlen = (nb - 1 + 7) // 8
+            if em_int >> (8 * emlen):
+                return False
+            return cprt.pss_verify(mh, em_int.to_bytes(emlen, "big"), nb - 1, 0)
+        return em_int.to_bytes(k, "big") == self.encode(mh, pre, key)
+
+    def model(self, sig, msg, pre, key):
+        if len(sig) != key["k"]:
+            return False
+        s = int.from_bytes(sig, "big")
+        if s >= key["n"]:
+            return False
+        return self.em_valid(pow(s, key["e"], key["n"]), self.mhash(msg, pre), pre, key)
+
+    # ------------------------------------------------------------------ library
+    def lib_ver(self, sig, msg, pre, key):
+        R = self.R
+        sp, mp = R.bytes_in(sig), R.bytes_in(msg)
+        try:
+            return self.verdict(R.call("cp_rsa_ver", sp, len(sig), mp, len(msg), 1 if pre else 0, key["pub"]))
+        finally:
+            R.free(sp)
+            R.free(mp)
+
+    def lib_sig(self, msg, pre, key):
+        R = self.R
+        mp = R.bytes_in(msg)
+        ctypes.memset(self.sig, 0xAA, self.cap)
+        R.wr_sz(self.sl, self.cap)
+        try:
+            res = R.call("cp_rsa_sig", self.sig, self.sl, mp, len(msg), 1 if pre else 0, key["prv"])
+        finally:
+            R.free(mp)
+        if res.caught or res.i != R.OK:
+            return None
+        n = R.rd_sz(self.sl)
+        if n > self.cap:
+            return None
+        return R.get(self.sig, n)
+
+    def keygen(self, bits):
+        ctx, R = self.ctx, self.R
+        if not ctx.begin("cp_rsa_gen|bits=%d" % bits, [bits], budget=300):
+            return None
+        try:
+            pub, prv = R.rsa_new(), R.rsa_new()
+            res = R.call("cp_rsa_gen", pub, prv, bits)
+            if not ctx.check(not res.caught and res.i == R.OK, ctx.cur_key + "|unexpected-error"):
+                return None
+            kp, ks = R.rsa_get(pub), R.rsa_get(prv)
+            n, e, d, p, q = ks["n"], kp["e"], ks["d"], ks["p"], ks["q"]
+            from ..model.curves import is_probable_prime
+            import math
+            lam = (p - 1) * (q - 1) // math.gcd(p - 1, q - 1)
+            good = (kp["n"] == n and p * q == n and p != q and is_probable_prime(p) and is_probable_prime(q)
+                    and e > 1 and (e * d) % lam == 1 and 2 * (bits // 2) - 1 <= n.bit_length() <= bits)
+            if R.K["CP_CRT"]:
+                good = good and ks["dp"] == d % (p - 1) and ks["dq"] == d % (q - 1) and (ks["qi"] * q) % p == 1
+            ctx.check(good, ctx.cur_key + "|key-inconsistent", {"n": hx(n), "e": hx(e), "p": hx(p), "q": hx(q)})
+            if not good:
+                return None
+            return dict(pub=pub, prv=prv, n=n, e=e, d=d, nbits=n.bit_length(), k=(n.bit_length() + 7) // 8, bits=bits)
+        except MonitorViolation as ex:
+            ctx.fail(ctx.cur_key + "|" + ex.kind, ex.detail)
+            return None
+        finally:
+            ctx.end()
+
+    def kcls(self, key):
+        m = key["nbits"] % 8
+        return "nbits%8=" + ("0" if m == 0 else ("1" if m == 1 else "other"))
+
+    def one(self, cls, mode, key, sig, msg, pre, extra=None):
+        """one verdict comparison"""
+        ctx = self.ctx
+        if not ctx.begin("cp_rsa_ver|%s,%s,%s" % (cls, mode, self.kcls(key)),
+                         [key["bits"], sig.hex(), msg.hex() if len(msg) <= 64 else [len(msg), H(msg).hex()], extra]):
+            return
+        try:
+            lv = self.lib_ver(sig, msg, pre, key)
+            mv = self.model(sig, msg, pre, key)
+            self.judge(lv, mv, {"lib": lv, "model": mv, "n": hx(key["n"])})
+        except MonitorViolation as e:
+            ctx.fail(ctx.cur_key + "|" + e.kind, e.detail)
+        finally:
+            ctx.end()
+
+    def run_key(self, key, heavy):
+        ctx, R, rng = self.ctx, self.R, self.rng
+        n, e, d, k, nb = key["n"], key["e"], key["d"], key["k"], key["nbits"]
+        kc = self.kcls(key)
+        # ---------------- completeness on every message length
+        lens = [(L, 0) for L in range(0, 301)] + [(32, 1)] * 6
+        last = None
+        for L, pre in lens:
+            if not self.mine():
+                continue
+            kind = rng.choice(["rand", "zero", "ff"])
+            msg = {"rand": self.rbytes(L), "zero": bytes(L), "ff": b"\xff" * L}[kind]
+            mode = "prehashed" if pre else "hashed"
+            if not ctx.begin("cp_rsa_sig|honest,%s,%s" % (mode, kc), [key["bits"], L, kind]):
+                continue
+            try:
+                sg = self.lib_sig(msg, pre, key)
+                if ctx.check(sg is not None, ctx.cur_key + "|unexpected-error"):
+                    ctx.check(len(sg) == k, ctx.cur_key + "|length", {"len": len(sg), "k": k})
+                    ctx.check(self.model(sg, msg, pre, key), ctx.cur_key + "|model-rejects", {"sig": sg.hex(), "msg": msg.hex()})
+                    lv = self.lib_ver(sg, msg, pre, key)
+                    ctx.check(lv == "acc", "cp_rsa_ver|honest,%s,%s|rejected" % (mode, kc), {"lib": lv, "sig": sg.hex()})
+                    last = (sg, msg, pre)
+            except MonitorViolation as ex:
+                ctx.fail(ctx.cur_key + "|" + ex.kind, ex.detail)
+            finally:
+                ctx.end()
+
+        # ---------------- hostile encodings of honest signatures
+        for it in range(ctx.n(2, 20)):
+            pre = rng.random() < 0.4
+            msg = self.rbytes(32) if pre else self.rbytes(rng.choice([0, 1, 20, 64, 200]))
+            mode = "prehashed" if pre else "hashed"
+            if not ctx.begin("cp_rsa_sig|honest,%s,%s" % (mode, kc), [key["bits"], len(msg), "hostile-base"]):
+                continue
+            try:
+                sg = self.lib_sig(msg, pre, key)
+            finally:
+                ctx.end()
+            if sg is None:
+                ctx.fail("cp_rsa_sig|honest,%s,%s|unexpected-error" % (mode, kc))
+                continue
+            sv = int.from_bytes(sg, "big")
+            tob = lambda v, ln=k: v.to_bytes(ln, "big")
+            flipm = (bytes([msg[0] ^ (1 << rng.randrange(8))]) + msg[1:]) if msg else b"\x01"
+            cs = [("honest", sg, msg), ("msg-bitflip", sg, flipm), ("msg-truncated", sg, msg[:-1]), ("msg-extended", sg, msg + b"\0"),
+                  ("sig+N,longer", tob(sv + n, k + 1), msg), ("sig+2N,longer", tob(sv + 2 * n, k + 1), msg),
+                  ("zero-prefixed", b"\0" + sg, msg), ("zero-prefixed", b"\0\0\0" + sg, msg),
+                  ("truncated", sg[:-1], msg), ("empty", b"", msg),
+                  ("extended", sg + b"\0", msg),
+                  ("sig=0", bytes(k), msg), ("sig=1", tob(1), msg), ("sig=N-1", tob(n - 1), msg), ("sig=N", tob(n), msg),
+                  ("sig=N-s", tob(n - sv), msg), ("sig-random", tob(rng.randrange(n)), msg),
+                  ("sig-bitflip", tob(sv ^ (1 << rng.randrange(8 * k))), msg)]
+            if (sv + n).bit_length() <= 8 * k:
+                cs.append(("sig+N,same-length", tob(sv + n), msg))
+            cs.append(("leading-zero-stripped" if sg[0] == 0 else "truncated", sg[1:], msg))
+            if pre:
+                cs += [("digest-empty", sg, b""), ("digest-short", sg, msg[:31]), ("digest-short", sg, msg[:1]),
+                       ("digest-long", sg, msg + b"\0"), ("digest-long", sg, msg + msg)]
+            for cls, sb, mb in cs:
+                self.one(cls, mode, key, sb, mb, pre)
+
+        # ---------------- crafted encoded messages, signed here with the library's private exponent
+        def craft(cls, em, msg, pre, extra=None):
+            v = int.from_bytes(em, "big")
+            if v >= n:
+                return
+            self.one("crafted:" + cls, "prehashed" if pre else "hashed", key, pow(v, d, n).to_bytes(k, "big"), msg, pre, extra)
+
+        for it in range(ctx.n(2, 12)):
+            pre = rng.random() < 0.3
+            msg = self.rbytes(32) if pre else self.rbytes(rng.choice([0, 3, 33, 100]))
+            mh = self.mhash(msg, pre)
+            em = self.encode(mh, pre, key)
+            craft("valid", em, msg, pre)
+            if self.pad == "pss":
+                embits = nb - 1
+                emlen = (embits + 7) // 8
+                for t in (0xBB, 0xBD, 0x00, 0x3C, 0xCC, 0xFF):
+                    craft("trailer", cprt.pss_encode(mh, embits, trailer=t), msg, pre, t)
+                for sl in (1, 8, 32):
+                    if emlen - sl - cprt.HL - 2 < 0:
+                        continue
+                    craft("salted", cprt.pss_encode(mh, embits, salt=self.rbytes(sl)), msg, pre, sl)
+                for sp in (0, 2, 0x81, 0xFF):
+                    craft("separator", cprt.pss_encode(mh, embits, sep=sp), msg, pre, sp)
+                craft("other-digest", cprt.pss_encode(H(mh), embits), msg, pre)
+                zb = 8 * emlen - embits
+                if zb:
+                    for b in range(zb):
+                        v = int.from_bytes(em, "big") | (1 << (8 * emlen - 1 - b))
+                        craft("top-bits-set", v.to_bytes(emlen, "big"), msg, pre, b)
+                if emlen < k:
+                    craft("leading-octet-set", b"\x01" + em, msg, pre)
+                # non-zero padding octet inside DB: rebuild DB with one PS byte set
+                hh = em[emlen - cprt.HL - 1:-1]
+                mask = cprt.mgf1(hh, emlen - cprt.HL - 1)
+                for pos in rng.sample(range(emlen - cprt.HL - 2), 3) + [0, emlen - cprt.HL - 3]:
+                    db = bytearray(cprt.xor(em[:emlen - cprt.HL - 1], mask))
+                    db[pos] ^= 1 << rng.randrange(8)
+                    if pos == 0 and zb:
+                        db[0] &= 0xFF >> zb
+                        if not db[0]:
+                            db[0] = 1
+                    mdb = bytearray(cprt.xor(bytes(db), mask))
+                    if zb:
+                        mdb[0] &= 0xFF >> zb
+                    craft("ps-nonzero", bytes(mdb) + hh + b"\xbc", msg, pre, pos)
+            else:
+                t = em[em.index(b"\x00", 1) + 1:] if self.pad == "pkcs1" else em[em.index(b"\xff") + 1:]
+                if self.pad == "pkcs1":
+                    craft("block-type", b"\x00\x02" + em[2:], msg, pre)
+                    craft("block-type", b"\x00\x00" + em[2:], msg, pre)
+                    craft("first-octet", b"\x01" + em[1:], msg, pre)
+                    for pos in (2, 3, k - len(t) - 2):
+                        e2 = bytearray(em)
+                        e2[pos] = 0xFE
+                        craft("ps-not-ff", bytes(e2), msg, pre, pos)
+                        e2[pos] = 0x00
+                        craft("ps-zero", bytes(e2), msg, pre, pos)
+                    craft("short-ps", b"\x00\x01" + b"\xff" * 4 + b"\x00" + t + self.rbytes(k - 7 - len(t)), msg, pre)
+                    craft("no-digestinfo" if not pre else "with-digestinfo",
+                          cprt.pkcs1_sig_encode(mh, k, digestinfo=bool(pre)), msg, pre)
+                    if not pre:
+                        di = bytearray(cprt.SHA256_DI)
+                        di[14] = 0x02       # SHA-384 object identifier with a SHA-256 sized digest
+                        craft("digestinfo-altered", b"\x00\x01" + b"\xff" * (k - 3 - len(t)) + b"\x00" + bytes(di) + mh, msg, pre)
+                    craft("trailing-garbage", b"\x00\x01" + b"\xff" * 8 + b"\x00" + t + self.rbytes(k - 11 - len(t)), msg, pre)
+                else:
+                    craft("marker", bytes(k - 1 - len(mh)) + b"\xfe" + mh, msg, pre)
+                    craft("digest-long", bytes(k - 2 - len(mh) - 60) + b"\xff" + mh + self.rbytes(60), msg, pre)
+                    craft("digest-long", b"\x00\xff" + self.rbytes(k - 2 - len(mh)) + mh, msg, pre)
+                    craft("digest-short", bytes(k - len(mh)) + b"\xff" + mh[:-1], msg, pre)
+                    craft("double-marker", bytes(k - 2 - len(mh)) + b"\xff\xff" + mh, msg, pre)
+                craft("other-digest", self.encode(H(mh), pre, key), msg, pre)
+            if heavy and it == 0:
+                emi = int.from_bytes(em, "big")
+                for b in range(8 * len(em)):
+                    if (b % ctx.nshards) != ctx.shard and ctx.quick:
+                        continue
+                    craft("em-allflips", (emi ^ (1 << b)).to_bytes(len(em), "big"), msg, pre, b)
+
+        # ---------------- every single-bit flip of one honest signature
+        if heavy and last is not None:
+            sg, msg, pre = last
+            sv = int.from_bytes(sg, "big")
+            for b in range(8 * k):
+                self.one("sig-allflips", "prehashed" if pre else "hashed", key, (sv ^ (1 << b)).to_bytes(k, "big"), msg, pre, b)
+
+
+def run_rsa(ctx):
+    R = PX(ctx.cfg)
+    w = Rsa(ctx, R)
+    ctx.note("padding", w.pad)
+    if not R.sha256_is_md:
+        ctx.note("skipped", "MD_MAP is not SHA-256 in this build")
+        return
+    sizes = [1024, 1018, 768, 1010, 1017, 520] if ctx.quick else [1024, 1018, 1017, 1016, 1010, 1009, 1002, 768, 521, 520, 512]
+    seen = {}
+    # every worker generates its own keys (the library's generator is deterministic per process: same keys in
+    # every shard); a modulus whose bit length is 1 mod 8 (emLen = k - 1) is searched for explicitly
+    for i, bits in enumerate(sizes):
+        key = w.keygen(bits)
+        if key is None:
+            continue
+        c = w.kcls(key)
+        seen[c] = seen.get(c, 0) + 1
+        w.run_key(key, heavy=(i < 2))
+    for bits in (1002, 994, 986, 978, 970, 962, 954, 946, 938, 930, 922, 914):
+        if "nbits%8=1" in seen:
+            break
+        key = w.keygen(bits)
+        if key is not None and w.kcls(key) == "nbits%8=1":
+            seen["nbits%8=1"] = 1
+            w.run_key(key, heavy=True)
+    ctx.note("modulus_classes", seen)
+    ctx.note("functions_exercised", sorted(k for k in R.fn_seen if k.startswith("cp_")))
+    ctx.note("error_codes_seen", {str(k): v for k, v in R.err_codes.items()})
+
+
 def run(ctx, part):
     if part == "ecdsa":
         run_ecdsa(ctx)
     elif part == "ec":
         run_ec(ctx)
+    elif part == "rsa":
+        run_rsa(ctx)
     else:
         ctx.note("part-not-implemented", part)
